@@ -464,3 +464,53 @@ package tq
 //@   assumed
 //@   props C18
 //@   pure
+
+// C02 / C06: how an adapter's verdict reaches the queue.  The result a worker
+// reports for a transfer carries that transfer and exactly the error its
+// DoTransfer returned (or an error for a negative size) - a failed transfer is
+// never reported as a success.
+//@ func (*job).Done
+//@   props C02 C06
+//@   requires @inv j != nil && j.wg != nil
+//@   at send results assert mapval__.Transfer == j.T && mapval__.Error == err
+//@ func (*adapterBase).worker
+//@   props C02 C06
+//@   requires @inv a != nil && a.transferImpl != nil && a.authWait != nil && a.workerWait != nil
+//@   at call (*tq.job).Done:1 assert arg0__ == job && (iter1(t.Size) >= 0 ==> arg1__ == lastxfererr(t)) && (iter1(t.Size) < 0 ==> arg1__ != nil)
+//@   at call (tq.transferImplementation).DoTransfer:1 assert arg2__ == t && t == job.T
+//@ iface (transferImplementation).DoTransfer
+//@   params recv ctx t cb authOkFunc
+//@   modifies all
+//@   monitor lastxfererr[t] := result
+//@ iface (transferImplementation).WorkerEnding
+//@   modifies all
+//@ func (*adapterBase).Trace
+//@   assumed
+//@   props C02 C06
+//@   noeffect
+//@ func (*TransferQueue).makeDryRunResults
+//@   props C06
+//@   loop 1 iter chsent(results) == iter(chsent(results)) + 1
+//@   at send results assert mapval__.Transfer == t && mapval__.Error == nil
+
+// C06: handing a batch to the adapter.  If the adapter cannot be started every
+// pending transfer is accounted for (one error, one Done each); otherwise
+// every "missing/corrupt" result and every result the adapter reports is
+// handed to handleTransferResult, with the retry channel of this batch.
+//@ func (*TransferQueue).addToAdapter
+//@   props C06
+//@   requires @inv q != nil && q.wait != nil && !q.wait.abort
+//@   loop 1 iter !iter(q.wait.abort) ==> q.wait.counter == iter(q.wait.counter) - 1
+//@ func (*TransferQueue).addToAdapter$1
+//@   props C06
+//@   at call (*tq.TransferQueue).handleTransferResult:1 assert arg1__ == res && arg2__ == retries
+//@   at call (*tq.TransferQueue).handleTransferResult:2 assert arg1__ == res && arg2__ == retries
+//@   at call (tq.Adapter).Add:1 assert arg1__ == present
+//@ func (*TransferQueue).ensureAdapterBegun
+//@   assumed
+//@   props C06
+//@   modifies fresh, fields q
+//@ func (*TransferQueue).Skip
+//@   assumed
+//@   props C06
+//@   modifies fresh
